@@ -21,9 +21,14 @@ PID = 'C12'
 _T = {}
 def topo(name):
     if name not in _T:
-        if name == 'line3': _T[name] = mesh.rectilinear([numpy.array([0., 1., 3., 4.])])
-        elif name == 'line3p': _T[name] = mesh.rectilinear([numpy.array([0., 1., 3., 4.])], periodic=(0,))
-        elif name == 'square': _T[name] = mesh.rectilinear([numpy.array([0., 1., 2.]), numpy.array([0., 2., 3.])])
+        # splines are smooth with respect to their knot vector: the default knot vector is uniform, so the geometries used for the
+        # derivative-continuity clause are uniform (spacing 2 resp. 1/2, not 1, so that a lost scale factor is visible); the non-uniform
+        # line 'line3n' is used with explicit knotvalues equal to its vertices (and for the C0 / evaluation clauses)
+        if name == 'line3': _T[name] = mesh.rectilinear([numpy.array([0., 2., 4., 6.])])
+        elif name == 'line3n': _T[name] = mesh.rectilinear([numpy.array([0., 1., 3., 4.])])
+        elif name == 'line3p': _T[name] = mesh.rectilinear([numpy.array([0., .5, 1., 1.5])], periodic=(0,))
+        elif name == 'square': _T[name] = mesh.rectilinear([numpy.array([0., 2., 4.]), numpy.array([0., .5, 1.])])
+        elif name == 'squaren': _T[name] = mesh.rectilinear([numpy.array([0., 1., 3.]), numpy.array([0., 2., 3.])])
         elif name == 'tri': _T[name] = mesh.unitsquare(2, 'triangle')
         elif name == 'hier':
             t, g = mesh.rectilinear([numpy.array([0., 1., 2.]), numpy.array([0., 1., 2.])]); _T[name] = (t.refined_by([0]), g)
@@ -39,6 +44,10 @@ def configs(tier):
     C.append(('spline2-c0', 'line3', dict(btype='spline', degree=2, continuity=0), True, 0))
     C.append(('spline3-c1', 'line3', dict(btype='spline', degree=3, continuity=1), True, 1))
     C.append(('spline2-mult', 'line3', dict(btype='spline', degree=2, knotmultiplicities=[numpy.array([1, 2, 1, 1])]), True, 0))
+    C.append(('spline2-knotvalues', 'line3n', dict(btype='spline', degree=2, knotvalues=[numpy.array([0., 1., 3., 4.])]), True, 1))
+    C.append(('spline3-knotvalues', 'line3n', dict(btype='spline', degree=3, knotvalues=[numpy.array([0., 1., 3., 4.])]), True, 1))
+    C.append(('std2-nonuniform', 'line3n', dict(btype='std', degree=2), True, 0)); C.append(('spline2-nonuniform-c0', 'line3n', dict(btype='spline', degree=2), True, 0))
+    C.append(('std1-2d-nonuniform', 'squaren', dict(btype='std', degree=1), True, 0))
     C.append(('spline2-periodic', 'line3p', dict(btype='spline', degree=2), True, 1))
     C.append(('std1-periodic', 'line3p', dict(btype='std', degree=1), True, 0))
     for d in (0, 1, 2): C.append((f'discont{d}', 'line3', dict(btype='discont', degree=d), True, -1))
@@ -203,7 +212,8 @@ def main(argv=None):
     run.stubs = STUBS
     run.assumptions = ['DECLINED: dof->elements / elements->dofs mutual inverses and "exactly the non-zero functions" (finite combinatorial facts, nothing quantified)', '3-D bases and multipatch/trimmed topologies are outside the bound',
                        'nutils_poly is a modelled stub (validated against the extension at start-up)', 'margins: 1e-9 on the reference element']
-    items = [(i, c, args.tier) for i, c in enumerate(configs('thorough')) if c in C]
+    names = {c[0] for c in C}
+    items = [(i, c, args.tier) for i, c in enumerate(configs('thorough')) if c[0] in names]
     if args.only: items = [it for it in items if args.only in it[1][0]]
     run.bounds = dict(bases=len(items), elements_per_topology='<= 6', interface_elements='<= 6', dimensions='1-2', degrees='0-3')
     from symx.run import selftest_poly
